@@ -23,3 +23,5 @@ def run(ctx):
     from . import g_dpor
     g_dpor.V3(ctx, subset=("rt::arc",))
     leaks.K5(ctx)
+    from . import arcrules
+    arcrules.arc_drop_decrements(ctx, rule="K4")
